@@ -60,6 +60,12 @@ theorem needBits_of_le (data : List Nat) (total : Nat) (h : total ≤ data.lengt
 @[py_rt] theorem and_15 (x : Nat) : x &&& 15 = x % 16 := Nat.and_two_pow_sub_one_eq_mod x 4
 @[py_rt] theorem and_255 (x : Nat) : x &&& 255 = x % 256 := Nat.and_two_pow_sub_one_eq_mod x 8
 
+/-- `x or 0` on an `Optional[int]` -/
+@[simp, py_rt] theorem orNat_zero (x : Option Nat) : orNat x 0 = x.getD 0 := by
+  cases x with
+  | none => rfl
+  | some v => by_cases h : v = 0 <;> simp [orNat, h]
+
 /-! ### slices -/
 
 theorem clampBound_natCast (len k : Nat) : clampBound len (k : Int) = min k len := by
